@@ -113,7 +113,7 @@ Lemma send_all_msgs : forall c now a outs tbl p,
 Proof.
   intros c now a outs tbl. induction tbl as [|s r IH]; intros p; simpl; [reflexivity|].
   destruct (matches (s_filter s) a && deliverable c s now).
-  - destruct (post p (s_notify s) (s_id s) (outcome_at outs (s_notify s))) as [p1 ok].
+  - destruct (post c p (s_notify s) (s_id s) (outcome_at outs (s_notify s))) as [p1 ok].
     specialize (IH p1). destruct (send_all c now a outs r p1) as [[r' p2] ms]. simpl in *. now rewrite IH.
   - specialize (IH p). destruct (send_all c now a outs r p) as [[r' p2] ms]. simpl in *. exact IH.
 Qed.
@@ -137,7 +137,7 @@ Lemma send_all_table : forall c now a outs tbl p,
 Proof.
   intros c now a outs tbl. induction tbl as [|s r IH]; intros p; simpl; [constructor|].
   destruct (matches (s_filter s) a && deliverable c s now).
-  - destruct (post p (s_notify s) (s_id s) (outcome_at outs (s_notify s))) as [p1 ok].
+  - destruct (post c p (s_notify s) (s_id s) (outcome_at outs (s_notify s))) as [p1 ok].
     specialize (IH p1). destruct (send_all c now a outs r p1) as [[r' p2] ms]. simpl in *.
     constructor; [destruct ok; apply set_errors_same|exact IH].
   - specialize (IH p). destruct (send_all c now a outs r p) as [[r' p2] ms]. simpl in *.
@@ -870,3 +870,55 @@ Proof.
     destruct (send_all c (st_now st) a outs (st_table st) (st_pool st)) as [[t' p'] ms]. simpl in *.
     destruct (Forall2_In_l _ _ _ _ T Hs) as [y [Hy [S _]]]. exists y. auto.
 Qed.
+
+(* ================================================================== P. every failure kind is a failed delivery *)
+Lemma exchange_state_fail : forall sync d o, o <> OOk -> snd (exchange_state sync d o) = false.
+Proof.
+  intros sync d o H. unfold exchange_state. destruct sync; simpl.
+  - destruct (d =? 2); [reflexivity|]. destruct o; try reflexivity. congruence.
+  - destruct o; try reflexivity. congruence.
+Qed.
+
+Lemma exchange_state_ok : forall sync d o, snd (exchange_state sync d o) = true -> o = OOk.
+Proof.
+  intros sync d o H. destruct o; try reflexivity;
+    rewrite exchange_state_fail in H by discriminate; discriminate.
+Qed.
+
+Lemma post_fail : forall c p n u o, o <> OOk -> snd (post c p n u o) = false.
+Proof.
+  intros c p n u o H. unfold post. destruct (pool_get p n u) as [p1 d].
+  pose proof (exchange_state_fail (c_sync c) d o H) as E.
+  destruct (exchange_state (c_sync c) d o) as [d' ok]. simpl in *. exact E.
+Qed.
+
+Lemma send_all_counts : forall c now a outs tbl p,
+  Forall2 (fun s s' => matches (s_filter s) a && deliverable c s now = true ->
+                       outcome_at outs (s_notify s) <> OOk -> s' = set_errors s (s_errors s + 1))
+          tbl (fst (fst (send_all c now a outs tbl p))).
+Proof.
+  intros c now a outs tbl. induction tbl as [|s r IH]; intros p; simpl; [constructor|].
+  destruct (matches (s_filter s) a && deliverable c s now) eqn:B.
+  - pose proof (post_fail c p (s_notify s) (s_id s) (outcome_at outs (s_notify s))) as PF.
+    destruct (post c p (s_notify s) (s_id s) (outcome_at outs (s_notify s))) as [p1 ok].
+    specialize (IH p1). destruct (send_all c now a outs r p1) as [[r' p2] ms]. simpl in *.
+    constructor; [|exact IH]. intros _ H. rewrite (PF H). reflexivity.
+  - specialize (IH p). destruct (send_all c now a outs r p) as [[r' p2] ms]. simpl in *.
+    constructor; [|exact IH]. intros C. rewrite B in C. discriminate.
+Qed.
+
+Lemma failure_counts : forall c st a outs s,
+  In s (st_table st) -> live c s (st_now st) -> matches (s_filter s) a = true ->
+  outcome_at outs (s_notify s) <> OOk ->
+  In (set_errors s (s_errors s + 1)) (st_table (fst (step c st (Report a outs)))).
+Proof.
+  intros c st a outs s Hs L M O. simpl.
+  pose proof (send_all_counts c (st_now st) a outs (st_table st) (st_pool st)) as T.
+  destruct (send_all c (st_now st) a outs (st_table st) (st_pool st)) as [[t' p'] ms]. simpl in *.
+  destruct (Forall2_In_l _ _ _ _ T Hs) as [y [Hy R]].
+  rewrite <- R; [exact Hy| |exact O]. rewrite M. simpl. now apply deliverable_live.
+Qed.
+
+(* ... and after c_maxerr of them in a row nothing is delivered any more *)
+Lemma over_limit_not_live : forall c s now, c_maxerr c <= s_errors s -> ~ live c s now.
+Proof. intros c s now H [_ [_ [_ L]]]. lia. Qed.
